@@ -272,4 +272,34 @@ theorem c14_value_store_tails_follow_source (s : VStore) :
                                else Generated.plainStoreTailWrites s.dataSize) :=
   gen_vstoreTail s
 
+/-- **Index tails follow the source** (`gen_indexTail`): field order and widths of the index tail the
+    writer model emits are those of `Index::serialize_tail` as translated on every run (widths from the
+    struct definition and the type table of the source). -/
+theorem c14_index_tail_follows_source (i : IndexInfo) (hfd : i.freeData.length = 4) (hn : i.name.length < 256) :
+    i.encode = writesBytes (Generated.indexTailWrites i.storeId i.count i.offset i.freeData i.key i.name) :=
+  gen_indexTail i hfd hn
+
+/-- **Cluster header and index header follow the source's layouts** (translated on every run by
+    tools/extract_layouts.py): writer and reader of the cluster header agree on `(compression : 1,
+    offset width : 1, blob count : 2)`, which are the first four bytes of the model's cluster tail; the
+    reader of an index tail takes fields of 4, 4, 4, 4 and 1 bytes and then the name (p-string) — the
+    widths the model's `IndexInfo.decode` takes, and the widths the translated writer
+    (`Generated.indexTailWrites`) writes. -/
+theorem c14_cluster_and_index_headers_follow_source :
+    Generated.clusterHeaderSer = Generated.clusterHeaderPar ∧
+    (srcFieldOffsets Generated.clusterHeaderPar 0).map (fun p => (p.2.1, p.2.2)) = [(0, 1), (1, 1), (2, 2)] ∧
+    (∀ t : ClusterTail, t.encode.take 4 =
+      srcLayoutBytes Generated.clusterHeaderSer (fun n =>
+        if n = "compression" then [UInt8.ofNat t.comp] else if n = "offset_size" then [UInt8.ofNat t.offsetSize]
+        else if n = "blob_count" then leBytes t.blobCount 2 else [])) ∧
+    (srcFieldOffsets Generated.indexHeaderPar 0).map (fun p => (p.2.1, p.2.2)) =
+      [(0, 4), (4, 4), (8, 4), (12, 4), (16, 1), (17, 0)] ∧
+    (∀ a b c fd k nm, ((Generated.indexTailWrites a b c fd k nm).map (·.2)).take 5 =
+      (Generated.indexHeaderPar.map (·.2)).take 5) := by
+  refine ⟨by decide, by decide, ?_, by decide, ?_⟩
+  · intro t
+    simp [ClusterTail.encode, srcLayoutBytes, Generated.clusterHeaderSer, leBytes]
+  · intro a b c fd k nm
+    simp [Generated.indexTailWrites, Generated.indexHeaderPar]
+
 end Jubako
